@@ -96,7 +96,6 @@ SWAPS = [
     (r"\.wrapping_add\(", ".wrapping_sub("),
     (r"\.min\(", ".max("), (r"\.max\(", ".min("),
     (r"\bu8::MAX\b", "(u8::MAX - 1)"),
-    (r"\bOk\(\(\)\)$", "return Ok(())"),
 ]
 NUM = re.compile(r"(?<![\w.])(0x[0-9a-fA-F_]+|\d[\d_]*)(?:_?(?:u8|u16|u32|u64|usize|i8|i16|i32|i64|isize))?(?![\w.])")
 
